@@ -490,7 +490,7 @@ func c08(c *core.Ctx, r *core.Report) {
 		smallModelCheck(c, r, "C08.R2", "further-matching-table:"+proc.Name(), proc.Props, 2)
 		frs.report(c, r, proc.Props, func(row string) string { return "C08.R2" }, "further-matching-table:"+proc.Name(), furtherRows)
 	}
-	maxLen := 2
+	maxLen := 3 // two candidates inside a qualifier set plus one outside it need three
 	if c.Tier == "thorough" {
 		maxLen = 4
 	}
@@ -627,6 +627,7 @@ func furtherPropsTable(c *core.Ctx, p *procInfo, narrowing *ssa.Function) (rs ro
 		ninj     int
 		required bool
 		outcome  string // ok | err-empty | err-nonempty
+		tag      string // every component-typed point is narrowed, whatever tag selected its candidates
 	}
 	var configs []pc
 	for _, pt := range []string{"Component", "Configuration"} {
@@ -636,7 +637,16 @@ func furtherPropsTable(c *core.Ctx, p *procInfo, narrowing *ssa.Function) (rs ro
 					if pt == "Configuration" && (n != 1 || oc != "ok" || !rq) {
 						continue
 					}
-					configs = append(configs, pc{pt, n, rq, oc})
+					if pt == "Configuration" {
+						configs = append(configs, pc{pt, n, rq, oc, "value"})
+						continue
+					}
+					for _, tag := range []string{"wire", "func", "custom"} {
+						if tag != "wire" && (n == 0 || oc == "err-nonempty") {
+							continue // the tag matters only for whether the point is narrowed at all
+						}
+						configs = append(configs, pc{pt, n, rq, oc, tag})
+					}
 				}
 			}
 		}
@@ -654,6 +664,7 @@ func furtherPropsTable(c *core.Ctx, p *procInfo, narrowing *ssa.Function) (rs ro
 				for i, k := range cfg {
 					pr := absint.NewTok(fmt.Sprintf("prop%d", i), "property")
 					pr.Fields["PropertyType"] = absint.Str(k.ptype)
+					pr.Fields["Tag"] = absint.Str(k.tag)
 					inj := &absint.List{IsNil: k.ninj == 0}
 					for j := 0; j < k.ninj; j++ {
 						inj.Elems = append(inj.Elems, absint.NewTok(fmt.Sprintf("cand%d.%d", i, j), "cand"))
